@@ -1,1 +1,79 @@
-//! Verification hooks: `relay_recv` (thin pass-through wrappers; feature `verif-hooks` only).
+//! C17: the relay receive path (`RelayTransport::poll_recv`) without a relay actor.
+//!
+//! The transport is the real one; only its receive queue is fed by the harness through
+//! the very `mpsc::Sender` the relay actor would hold (the actor forwards the
+//! `Datagrams` it gets from a relay unchanged into that queue).
+
+use std::{
+    io,
+    task::{Context, Poll},
+};
+
+use iroh_base::{EndpointId, RelayUrl};
+use iroh_relay::protos::relay::Datagrams;
+use tokio::sync::mpsc;
+
+use crate::socket::transports::{Addr, RecvInfo, RelayTransport};
+
+/// Capacity of the receive queue in `RelayTransport::new`.
+pub const RECV_QUEUE_CAPACITY: usize = 512;
+
+/// The real `RelayTransport`, receive side only.
+pub struct RelayRecv {
+    inner: RelayTransport,
+    infos: Vec<RecvInfo>,
+}
+
+/// The producer half of the transport's receive queue (what the relay actor holds).
+#[derive(Clone)]
+pub struct RelayFeed {
+    tx: mpsc::Sender<crate::socket::transports::VerifRelayRecvDatagram>,
+}
+
+/// Creates the transport and its feed.  Must be called inside a tokio runtime context.
+pub fn new(capacity: usize, my_endpoint_id: EndpointId) -> (RelayRecv, RelayFeed) {
+    let (inner, tx) = RelayTransport::verif_new_without_actor(capacity, my_endpoint_id);
+    (
+        RelayRecv {
+            inner,
+            infos: Vec::new(),
+        },
+        RelayFeed { tx },
+    )
+}
+
+impl RelayFeed {
+    /// `try_send`, as `ActiveRelayActor::handle_relay_msg` does.  `Err(true)`: queue full,
+    /// `Err(false)`: closed.
+    pub fn try_send(&self, url: RelayUrl, src: EndpointId, datagrams: Datagrams) -> Result<(), bool> {
+        self.tx
+            .try_send(crate::socket::transports::VerifRelayRecvDatagram {
+                url,
+                src,
+                datagrams,
+            })
+            .map_err(|e| matches!(e, mpsc::error::TrySendError::Full(_)))
+    }
+}
+
+impl RelayRecv {
+    /// Unchanged pass-through to `RelayTransport::poll_recv`.
+    pub fn poll_recv(
+        &mut self,
+        cx: &mut Context,
+        bufs: &mut [io::IoSliceMut<'_>],
+        metas: &mut [noq_udp::RecvMeta],
+    ) -> Poll<io::Result<usize>> {
+        self.infos.clear();
+        self.infos.resize(bufs.len(), RecvInfo::default());
+        self.inner.verif_poll_recv(cx, bufs, metas, &mut self.infos)
+    }
+
+    /// The relay source recorded for slot `i` by the last `poll_recv`.
+    pub fn source(&self, i: usize) -> Option<(RelayUrl, EndpointId)> {
+        match self.infos.get(i)?.remote() {
+            Addr::Relay(url, id) => Some((url.clone(), *id)),
+            _ => None,
+        }
+    }
+}
